@@ -53,3 +53,58 @@ UNITS.append(dict(
   if (v == &V) __CPROVER_assert (V_val (&V) == vv, "[C05] v (not the result) unchanged");
 }''',
     selftest=[('__gmpz_lcm', r'__gmpz_divexact \(g, u, g\)', '__gmpz_divexact (g, v, g)')]))
+
+# ------------------------------------------------------------------ mpz_gcd_ui: limb-level glue over the ASSUMED contract of mpn_gcd_1
+from c04_alloc import mpz_obj
+from c03_mpn import copy_loop
+GU_CONTRACT = '''int g_g1_calls; mp_limb_t g_g1_u, g_g1_v, g_g1_res; long g_g1_n;
+/* ASSUMED (not proved by any unit): mpn_gcd_1 needs size >= 1, {up,size} != 0 (here: top limb non-zero), vlimb != 0; returns a limb in [1, vlimb] */
+mp_limb_t __gmpn_gcd_1 (mp_srcptr up, mp_size_t size, mp_limb_t vlimb)
+__CPROVER_requires (1 <= size && size <= V_ZMAX && V_R_OK (up, size) && up[size - 1] != 0 && vlimb != 0 && 0 <= gk)
+__CPROVER_assigns (g_g1_calls, g_g1_u, g_g1_v, g_g1_res, g_g1_n)
+__CPROVER_ensures (g_g1_calls == __CPROVER_old (g_g1_calls) + 1 && g_g1_n == size && g_g1_v == vlimb && g_g1_u == V_OLDSEL (gk < size, up + gk))
+__CPROVER_ensures (__CPROVER_return_value == g_g1_res && 1 <= g_g1_res && g_g1_res <= vlimb);
+mpir_ui __gmpz_gcd_ui (mpz_ptr w, mpz_srcptr u, mpir_ui v)
+__CPROVER_requires ((w == (mpz_ptr) 0 || V_WF (w)) && V_WF (u) && V_GHOSTS_OK)
+__CPROVER_assigns (w != (mpz_ptr) 0: *w, __CPROVER_object_whole (V_PTR (w)); g_g1_calls, g_g1_u, g_g1_v, g_g1_res, g_g1_n)
+__CPROVER_frees (w != (mpz_ptr) 0: V_PTR (w))
+__CPROVER_ensures (w == (mpz_ptr) 0 || V_WF_AT (w, gk));
+'''
+GU_H = '''void h_mpz_gcd_ui (void) {
+%(W)s%(U)s  mpz_ptr w = &W; mpz_srcptr u = &U;
+ALIASBLOCK
+  mpir_ui v = nondet_ulong ();
+  gk = nondet_long (); gj = nondet_long (); gh = nondet_long ();
+  __CPROVER_assume (V_GHOSTS_OK && (w == (mpz_ptr) 0 || V_WF (w)) && V_WF (u));
+  long us = V_SIZ (u), un = V_ABS (us);
+  mp_limb_t Uk = gk < un ? V_PTR (u)[gk] : 0, U0 = un ? V_PTR (u)[0] : 0;
+  g_g1_calls = 0;
+  mpir_ui res = __gmpz_gcd_ui (w, u, v);
+  if (un == 0)
+    {
+      __CPROVER_assert (res == v && g_g1_calls == 0, "[C07] gcd(0,v) = v");
+      if (w) __CPROVER_assert (V_SIZ (w) == (v != 0) && (v == 0 || V_PTR (w)[0] == v), "[C07] gcd(0,v) = v stored, non-negative");
+    }
+  else if (v == 0)
+    {
+      __CPROVER_assert (g_g1_calls == 0 && res == (un == 1 ? U0 : 0), "[C07] gcd(u,0) = |u|: returned when it fits one limb, else 0");
+      if (w) __CPROVER_assert (V_SIZ (w) == un && (gk < un ==> V_PTR (w)[gk] == Uk), "[C07][C05] gcd(u,0) = |u| stored limb for limb, non-negative");
+    }
+  else
+    {
+      __CPROVER_assert (g_g1_calls == 1 && g_g1_n == un && g_g1_v == v && g_g1_u == Uk && res == g_g1_res, "[C07] one single-limb gcd of the limbs of |u| with v; its result is returned");
+      if (w) __CPROVER_assert (V_SIZ (w) == 1 && V_PTR (w)[0] == res, "[C07] the gcd is stored as a positive one-limb value");
+    }
+  if (u != w) __CPROVER_assert ((long) V_SIZ (u) == us && (gk < un ==> V_PTR (u)[gk] == Uk), "[C05] u (not the result) unchanged");
+}'''
+_gu = dict(name='mpz_gcd_ui', props=['C07', 'C04', 'C05', 'C15'], source='mpz/gcd_ui.c', contracts=['mpn.h', 'mpz.h'], contract_text=GU_CONTRACT,
+           enforce=['__gmpz_gcd_ui'], replace=['__gmpz_realloc', '__gmpn_gcd_1'],
+           functions={'__gmpz_gcd_ui': dict(loops={0: copy_loop(['gk'])})},
+           assumptions=['mpn_gcd_1: ASSUMED contract (size >= 1, non-zero operand, vlimb != 0; result in [1, vlimb]); the gcd VALUE is not specified'],
+           harness=GU_H % dict(W=mpz_obj('W'), U=mpz_obj('U')), timeout=900,
+           selftest=[('__gmpz_gcd_ui', r'\(\(w\)->_mp_size\) = un;', '((w)->_mp_size) = ((u)->_mp_size);'), ('__gmpz_gcd_ui', r'un == 1 && res <= ', 'un >= 1 && res <= ')])
+for _t, _c in (('d', ''), ('wu', '  u = w;'), ('null', '  w = (mpz_ptr) 0;')):
+    _v = dict(_gu); _v['name'] = 'mpz_gcd_ui_' + _t
+    _v['harness'] = _gu['harness'].replace('ALIASBLOCK', _c).replace('h_mpz_gcd_ui (void)', 'h_mpz_gcd_ui_%s (void)' % _t)
+    if _t != 'd': _v['selftest'] = []
+    UNITS.append(_v)
